@@ -18,6 +18,7 @@ Data formats that describe the general structure of the data.
 import codecs
 import csv
 import string
+import sys
 import token
 import tokenize
 
@@ -310,7 +311,7 @@ class DataFormat(object):
 
         name = name.replace(" ", "_")
         property_attribute_name = "_" + name
-        if property_attribute_name not in self.__dict__:
+        if (property_attribute_name not in self.__dict__) or (name in (KEY_FORMAT, "is_valid")):
             valid_property_names = _tools.human_readable_list(list(self.__dict__.keys()))
             raise errors.InterfaceError(
                 "data format property %s for format %s is %s but must be one of %s"
@@ -321,10 +322,10 @@ class DataFormat(object):
         if name == KEY_ENCODING:
             try:
                 codecs.lookup(value)
-            except LookupError:
+            except (LookupError, ValueError):
                 raise errors.InterfaceError(
                     "value for data format property %s is %s but must be a valid encoding"
-                    % (_compat.text_repr(KEY_ENCODING), _compat.text_repr(self.encoding)),
+                    % (_compat.text_repr(KEY_ENCODING), _compat.text_repr(value)),
                     location,
                 )
             self.encoding = value
@@ -359,7 +360,10 @@ class DataFormat(object):
             self.item_delimiter = item_delimiter
         elif name == KEY_LINE_DELIMITER:
             try:
-                self.line_delimiter = _TEXT_TO_LINE_DELIMITER_MAP[value.lower()]
+                line_delimiter = _TEXT_TO_LINE_DELIMITER_MAP[value.lower()]
+                if (line_delimiter is None) and (self.format != FORMAT_FIXED):
+                    raise KeyError(value)
+                self.line_delimiter = line_delimiter
             except KeyError:
                 raise errors.InterfaceError(
                     "line delimiter %s must be changed to one of: %s"
@@ -374,7 +378,13 @@ class DataFormat(object):
             quoting = DataFormat._validated_choice(KEY_QUOTING, value, _VALID_QUOTING, location, ignore_case=True)
             self.quoting = QUOTING_TO_CSV_QUOTE_MAP[quoting]
         elif name == KEY_SHEET:
-            self.sheet = DataFormat._validated_int_at_least_0(KEY_SHEET, value, location)
+            sheet = DataFormat._validated_int_at_least_0(KEY_SHEET, value, location)
+            if sheet < 1:
+                raise errors.InterfaceError(
+                    "data format property %s is %d but must be at least 1" % (_compat.text_repr(KEY_SHEET), sheet),
+                    location,
+                )
+            self.sheet = sheet
         elif name == KEY_SKIP_INITIAL_SPACE:
             self.skip_initial_space = DataFormat._validated_bool(KEY_SKIP_INITIAL_SPACE, value, location)
         elif name == KEY_THOUSANDS_SEPARATOR:
@@ -489,6 +499,12 @@ class DataFormat(object):
         # TODO: Handle 'none' properly.
         assert result_code is not None
         assert result_code >= 0
+        if result_code > sys.maxunicode:
+            raise errors.InterfaceError(
+                "value for %s must be a character code between 0 and %d but is: %s"
+                % (name_for_errors, sys.maxunicode, _compat.text_repr(value)),
+                location,
+            )
         result = chr(result_code)
         return result
 
